@@ -800,7 +800,7 @@ MANIFEST = dict(
         "comparison normal form against the documented 'by at most fix'; entry-point bindings; construction of "
         "the sos/eos rows independent of the transcript's first dimension; stripping after the last sos / before "
         "the first eos (also as value tables: _load_ref and _write_hyp interpreted over sos / eos settings and 1-D / 2-D transcripts). "
-        "Necessary conditions of C12; the iff of acceptance over all directories is not decided. SpectDataSet.find_utt_ids is interpreted over plain data against modelled feat / ali / ref directories for every combination of sub-directories in use, subset and warning setting: the ids found are exactly those present in every sub-directory in use."),
+        "Necessary conditions of C12; the iff of acceptance over all directories is not decided. SpectDataSet.find_utt_ids is interpreted over plain data against modelled feat / ali / ref directories for every combination of sub-directories in use, subset and warning setting: the ids found are exactly those present in every sub-directory in use. The bare --fix flag stores the tolerance promised by its help text and by the legacy fix=True."),
     level_note="Trusted: python ast; torch.save persists the tensor passed. F6 (_load_ref on empty transcripts) and "
                "F7 (--fix 0) were found by these rules and repaired by fix: commits.",
     technique="static analysis: typestate over enumerated CFG paths, guard dominance, comparison normal forms, reaching definitions, decision tables by abstract interpretation (per-token boundary block, fix normalisation, sos/eos insertion, CLI validate flag)",
